@@ -778,6 +778,17 @@ def run_streams(run, tier, seed):
             run.violation(f"C01:bcoverage:style-{s}", f"generator coverage target missed: no design built in style {s}", dict(kind="coverage"), found_input=False)
     report(run, "bdesigns", bad, designs, outs)
     run.sample(dict(stream="bundle-designs", design=designs[len(designs) // 2]))
+    # spec validation: lowering (Spec/C01BLower.v) + core semantics (Spec/Nets.v) == path-based meaning (Spec/C01BNets.v);
+    # the hypotheses of the lowering theorem hold (names_ok for the naming b.m1.m2, pairs_ok, terminals are nodes of the design)
+    every = cs + designs
+    cases = [c_case(d, dict(pkg=None)) for d in every]
+    bad3 = core.coq_eval_cases("C01", "blower", IMPORTS, "c01b_case", cases, "run_cases chk_lower", chunk=60)
+    run.stream("bundle-lowering", len(every), len({json.dumps(d) for d in every}),
+               rule="every bundle design; distinct by design; compares labels(lower d) with the path-based labels inside Coq")
+    if bad3:
+        i = sorted(bad3, key=lambda ic: len(json.dumps(every[ic[0]])))[0][0]
+        run.violation("C01:blowering", "member-wise lowering and the path-based meaning disagree, or a hypothesis of the lowering theorem fails (spec defect)",
+                      dict(kind="spec-inconsistency", fragment="bundles", case=every[i], failing_cases=len(bad3)), found_input=False)
     run.coverage["traces_validated_against_impl"] = run.coverage.get("traces_validated_against_impl", 0) + len(designs) + len(cs)
 
 
